@@ -123,7 +123,7 @@ def run(spec):
     sens = {"nmap_scans": 0, "prob_agent_steps": 0, "tap_stages": set()}
     for ep, acts in enumerate(spec["actions"]):
         seed = spec["seed"] if spec.get("same_seed_each_episode") else spec["seed"] + ep
-        if spec.get("same_seed_each_episode"):
+        if spec.get("same_seed_each_episode") or spec.get("norm_per_episode"):
             norm = snap.Normaliser()  # episodes are compared with each other: number opaque ids per episode
         obs, info = env.reset(seed=seed if spec.get("reset_seed", True) else None)
         rec = [ep, -1, _digest_obs(obs), None, {}]
